@@ -54,6 +54,12 @@ func (g *G) NumSchema(ty string) M {
 	s := M{"type": ty}
 	los := []any{nil, nil, 0, 1, 2, -3}
 	his := []any{nil, nil, 5, 8, 10}
+	frac := r.P(0.25) // fractional bounds, on numbers and (since fix R11 in scope) on integers
+	if frac {
+		los = []any{nil, -2.5, -0.5, 0.5, 1.5, 2.25}
+		his = []any{nil, 4.5, 5.5, 7.25, 9.75}
+		g.hit("kw:fractional-bound")
+	}
 	if g.O.BigInts && ty == "integer" && r.P(0.5) {
 		los = []any{nil, 0, -128, -129, -32768, -2147483648, -2147483649, 1}
 		his = []any{nil, 127, 128, 255, 256, 32767, 65535, 65536, 2147483647, 4294967295, 4294967296}
@@ -82,10 +88,16 @@ func (g *G) NumSchema(ty string) M {
 	} else {
 		if r.P(0.3) {
 			s["exclusiveMinimum"] = core.Pick(r, []any{0, 1, 2, -3})
+			if frac {
+				s["exclusiveMinimum"] = core.Pick(r, []any{-0.5, 0.5, 1.5, -2.5})
+			}
 			g.hit("kw:exclusiveMinimum-num")
 		}
 		if r.P(0.3) {
 			s["exclusiveMaximum"] = core.Pick(r, []any{5, 8, 10, 9})
+			if frac {
+				s["exclusiveMaximum"] = core.Pick(r, []any{4.5, 8.5, 9.25})
+			}
 			g.hit("kw:exclusiveMaximum-num")
 		}
 	}
